@@ -284,6 +284,24 @@ var dataOps = []dop{
 	{name: `Derive.WithItem(A"y").Build`, class: "Derive.WithItem.Build",
 		apply: func(m *hsms.DataMessage) (*hsms.DataMessage, error) { return m.Derive().WithItem(bodyY.mk()).Build() },
 		model: func(s mstate) mstate { s.b = bodyY; return s }},
+	// WithItem(nil) is the documented "header-only" override: the source's body must not come back
+	{name: "Derive.WithItem(nil).Build", class: "Derive.WithItemNil.Build",
+		apply: func(m *hsms.DataMessage) (*hsms.DataMessage, error) { return m.Derive().WithItem(nil).Build() },
+		model: func(s mstate) mstate { s.b = catalogue[0]; return s }},
+	{name: `Derive.WithItem(A"y").WithItem(nil).Build`, class: "Derive.WithItem.WithItemNil.Build",
+		apply: func(m *hsms.DataMessage) (*hsms.DataMessage, error) {
+			return m.Derive().WithItem(bodyY.mk()).WithItem(nil).Build()
+		},
+		model: func(s mstate) mstate { s.b = catalogue[0]; return s }},
+	{name: "Derive.Build twice (builder reuse)", class: "Derive.BuildTwice",
+		apply: func(m *hsms.DataMessage) (*hsms.DataMessage, error) {
+			b := m.Derive()
+			if _, err := b.WithItem(bodyY.mk()).Build(); err != nil {
+				return nil, err
+			}
+			return b.WithItem(nil).WithSessionID(0x8001).Build()
+		},
+		model: func(s mstate) mstate { s.b = catalogue[0]; s.f.Session = 0x8001; return s }},
 	{name: "Derive.WithFunction(2).Build", class: "Derive.WithFunction.Build", named: []int{7},
 		apply: func(m *hsms.DataMessage) (*hsms.DataMessage, error) { return m.Derive().WithFunction(2).Build() },
 		model: func(s mstate) mstate { s.f.B3 = 2; return s }},
